@@ -411,6 +411,10 @@ def check(ctx):
                           'waiting list until it is served (withdrawn or reordered requests leave a waiting device asleep)'))
     obs.append(ctx.shared('c05', 'C05.4', 'C03.14', 'a finite-horizon run returns only if a hand-over deferred by the buffer delay is retried at a time at which the delay test passes: '
                           'the test and the retry time must be the same expression (arrival + delay against now, one ulp of slack), or the retry is re-scheduled at the same instant for ever'))
+    obs.append(ctx.shared('c08', 'C08.8', 'C03.15', 'a freed device wakes the upstream devices it is attached to: set_upstream must attach to exactly the devices it stores, in a list '
+                          'of its own (a caller that re-uses the list it passed would silently re-route the notifications)'))
+    obs.append(ctx.shared('c09', 'C09.5', 'C03.16', 'a device waiting for resources is woken when its request fits: the test applied to a waiting request must be exactly '
+                          '"every non-zero entry fits what is free now" (discounting amounts promised to earlier waiters leaves a later one asleep when the earlier one does not take them)'))
     return obs
 
 
